@@ -95,7 +95,8 @@ Definition hdr_expiration_time (rp : reply) (now : Z) : Z :=
   | Some ma => if 0 <=? rp_date rp then rp_date rp + ma else now
   | None =>
       if rp_has_expires rp then
-        (if rp_expires_hdr rp <? 0 then now else rp_expires_hdr rp)
+        (* a malformed Expires means "expires immediately": at the reply's own Date when it has one *)
+        (if rp_expires_hdr rp <? 0 then (if 0 <=? rp_date rp then rp_date rp else now) else rp_expires_hdr rp)
       else -1
   end.
 
@@ -123,8 +124,11 @@ Definition served_date (rp : reply) (now rt : Z) : Z :=
   let sd2 := if now - sd1 <? age then (if age <? now then now - age else sd1) else sd1 in
   sd2 - rt.
 
+(* exp: relative to served_date when both reply->expires and Date are known, never negative in that case *)
 Definition entry_expires (rp : reply) (rexp sd : Z) : Z :=
-  if (0 <? rexp) && (-1 <? rp_date rp) then sd + (rexp - rp_date rp) else rexp.
+  if (0 <? rexp) && (-1 <? rp_date rp) then
+    (let x := sd + (rexp - rp_date rp) in if x <? 0 then 0 else x)
+  else rexp.
 
 (* the entry as HttpStateData::haveParsedReplyHeaders leaves it after timestampsSet(), flags still clear *)
 Definition new_entry (rp : reply) (now rt : Z) : entry :=
